@@ -70,6 +70,10 @@ def to_v(C, x):
 
 def dyadic(q: Fraction): return q.denominator & (q.denominator - 1) == 0
 
+_SET_CACHE: dict = {}
+_SITE_CACHE: dict = {}
+_DESC_CACHE: dict = {}
+
 def bound_member(C, fb, val, rep):
     """is the run-time value `val` described by the inferred FormatBound `fb`?  None = not judged"""
     if fb is None: return None
@@ -84,16 +88,22 @@ def bound_member(C, fb, val, rep):
     v = to_v(C, val)
     if v is None: return None
     if isinstance(fb, SetFormat):
-        for m in fb.values:
-            if isinstance(m, NegZero):
-                if v == ('z', True): return True
-            elif isinstance(m, Special):
-                if (m is Special.POS_INF and v == 'pinf') or (m is Special.NEG_INF and v == 'ninf') or (m is Special.NAN and v == 'nan'): return True
-            elif isinstance(m, Fraction):
-                if (m == 0 and v == ('z', False)) or (isinstance(v, Fraction) and v == m): return True
-        return False
+        key = id(fb)
+        members = _SET_CACHE.get(key)
+        if members is None or members[0] is not fb:
+            ms = set()
+            for m in fb.values:
+                if isinstance(m, NegZero): ms.add(('z', True))
+                elif isinstance(m, Special): ms.add({Special.POS_INF: 'pinf', Special.NEG_INF: 'ninf', Special.NAN: 'nan'}[m])
+                elif isinstance(m, Fraction): ms.add(('z', False) if m == 0 else m)
+            members = (fb, ms)
+            _SET_CACHE[key] = members
+        return v in members[1]
     if isinstance(fb, Format):
-        d = fmt_desc(fb)
+        ent = _DESC_CACHE.get(id(fb))
+        if ent is None or ent[0] is not fb:
+            ent = (fb, fmt_desc(fb)); _DESC_CACHE[id(fb)] = ent
+        d = ent[1]
         if d == 'real': return True
         if d is None:
             rep.count('prog:format-read-by-representable_in')
@@ -135,6 +145,8 @@ class TracingCompiler(BytecodeCompiler):
 class RunTimeout(Exception):
     pass
 
+RUN_TIMEOUT = 0.5      # seconds per traced run; a program that exceeds it three times is not run further
+
 def _alarm(signum, frame):
     raise RunTimeout()
 
@@ -146,7 +158,7 @@ def run_traced(func, args, ctx, sink, cache={}):
     fn, box, _ = cache[key]
     box[:] = [sink]
     old = signal.signal(signal.SIGALRM, _alarm)
-    signal.setitimer(signal.ITIMER_REAL, 2.0)
+    signal.setitimer(signal.ITIMER_REAL, RUN_TIMEOUT)
     try:
         res = fn(*tuple(to_value(a) for a in args), __ctx__=ctx)
     finally:
@@ -430,6 +442,7 @@ def classify(C, kind, e, d, v, info, du=None):
     `a <= b` answered True through the `other.exp = -inf` path: a Round/Cast whose argument format is
     `<=` the scope's, an if-expression / branch join whose one side is `<=` the other."""
     op = 'return' if isinstance(e, str) else type(e).__name__
+    fb0 = None if isinstance(e, str) else info.by_expr.get(e)
     if isinstance(v, tuple):
         # F29 exactly: the site is a negation / product whose exact abstract result (AbstractFormat.__neg__ /
         # __mul__ on the operand formats) has no negative zero
@@ -443,9 +456,27 @@ def classify(C, kind, e, d, v, info, du=None):
                     return 'F29', 'prog-negative-zero-from-exact-neg-or-mul'
         except Exception:   # noqa
             pass
+        if op == 'Sum' and type(e.arg).__name__ == 'ListExpr' and len(e.arg.elts) == 1:
+            return 'C14-sum1', 'prog-sum-of-one-element-is-not-rounded'
+        if op == 'Var' and isinstance(fb0, SetFormat) and fb0.values == frozenset({Fraction(0)}) and du is not None:
+            try:
+                from fpy2.analysis.reaching_defs import AssignDef, PhiDef
+                dd = du.find_def_from_use(e)
+                if not isinstance(dd, (AssignDef, PhiDef)) or getattr(dd, 'site', None) is info.func:
+                    # C14-capnegzero exactly: a captured Python float -0.0 is bound as Fraction(0)
+                    return 'C14-capnegzero', 'prog-captured-python-negative-zero'
+            except Exception:   # noqa
+                pass
         return None, f'prog-negative-zero-missed-at-{op}'
+    fb0 = None if isinstance(e, str) else info.by_expr.get(e)
+    if isinstance(fb0, SetFormat) and fb0.values and all(isinstance(m, NegZero) or m == 0 for m in fb0.values) and v in ('pinf', 'ninf', 'nan'):
+        # C14-zeroonly exactly: `_materialize_in_scope` reports a zero-bounded format as the set of its zeros and drops has_nan / has_inf
+        return 'C14-zeroonly', 'prog-zero-only-set-drops-specials'
     if v in ('pinf', 'ninf', 'nan'): return None, f'prog-special-missed-at-{op}'
     try:
+        if op == 'Sum' and type(e.arg).__name__ == 'ListExpr' and len(e.arg.elts) == 1:
+            # C14-sum1 exactly: the sum of a one-element list is that element, unrounded, but is given the scope's format
+            return 'C14-sum1', 'prog-sum-of-one-element-is-not-rounded'
         if op in ('Min', 'Max'):
             # C14-select exactly: `exact_select` tightens with the bound of an operand that may be the far infinity
             from fpy2.analysis.format_infer.analysis import _to_abstract
@@ -508,12 +539,27 @@ def check_function(rep, C, name, kind, f, an_ctx, arg_fmts, run_ctx, combos, met
         du = None
     nrun = nchk = 0
     reported = set()
+    import c14cov
+    c14cov.pause()      # the runs below execute none of the measured files
+    try:
+        return _check_runs(rep, C, name, kind, f, info, du, run_ctx, combos, meta, on_run)
+    finally:
+        c14cov.resume()
+
+def _check_runs(rep, C, name, kind, f, info, du, run_ctx, combos, meta, on_run):
+    nrun = nchk = 0
+    ntimeout = 0
+    reported = set()
     for combo in combos:
         obs = []
         try:
-            res = run_traced(f, [C.v_float(v) for v in combo], run_ctx, lambda e, v: obs.append((e, v)))
+            res = run_traced(f, [[C.v_float(u) for u in v] if isinstance(v, list) else C.v_float(v) for v in combo], run_ctx, lambda e, v: obs.append((e, v)))
         except Exception as e:   # noqa
-            rep.count('prog:run-raises:' + type(e).__name__); continue
+            rep.count('prog:run-raises:' + type(e).__name__)
+            if isinstance(e, RunTimeout):
+                ntimeout += 1
+                if ntimeout >= 3: break
+            continue
         nrun += 1
         if on_run is not None: on_run(combo, obs)
         obs.append(('ret', res))
@@ -522,8 +568,11 @@ def check_function(rep, C, name, kind, f, an_ctx, arg_fmts, run_ctx, combos, met
             ok = bound_member(C, fb, val, rep)
             if ok is None: continue
             nchk += 1
-            site = 'return value' if isinstance(e, str) else e.format() if hasattr(e, 'format') else str(e)
-            rep.distinct.add((name, site, str(val)))
+            site = _SITE_CACHE.get(id(e))
+            if site is None:
+                site = 'return value' if isinstance(e, str) else e.format() if hasattr(e, 'format') else str(e)
+                _SITE_CACHE[id(e)] = site
+            rep.distinct.add((name, site, (val.s, val.exp, val.c, val.isinf, val.isnan) if isinstance(val, Float) else repr(val)))
             if ok is False:
                 v = to_v(C, val)
                 d = fmt_desc(fb) if isinstance(fb, Format) else None
@@ -533,7 +582,7 @@ def check_function(rep, C, name, kind, f, an_ctx, arg_fmts, run_ctx, combos, met
                 reported.add(key)
                 C.viol(rep, shape, 'a run-time value is not a member of the inferred format',
                        {'stage': 'program', 'kind': kind, 'contexts': meta,
-                        'source': f.ast.format(), 'inputs': [C.v_str(v) for v in combo], 'site': site, 'value': C.v_str(v) if v is not None else repr(val),
+                        'source': f.ast.format(), 'inputs': [[C.v_str(u) for u in v] if isinstance(v, list) else C.v_str(v) for v in combo], 'site': site, 'value': C.v_str(v) if v is not None else repr(val),
                         'inferred': repr(fb), 'shape': shape, 'finding': fid})
                 break     # later misses of the same run are consequences of this one
     return 1, nrun, nchk
